@@ -19,7 +19,11 @@ Print Assumptions C02_tokens_distinct.
 (* ---- in EVERY state, a datagram hands a response to the application only as the result / notification of the
    request registered under (token, source endpoint) -- or under (token, None), the entry of a request sent to a
    multicast address, the one case where the source is not compared -- and it is that very datagram *)
+(* (side condition for piggy-backed responses only: the ACK first ends an exchange, which may release a backlogged
+   request; if the transport refuses THAT transmission synchronously the error fan-out runs before the table is
+   consulted -- the statement is then about the table as it is at that moment, see C02_reachable_inv) *)
 Theorem C02_deliver_only_matching : forall s r mcl w s' outs o,
+  (w_mtype w = ACK -> refuses s r = false) ->
   dispatch_message s r mcl w = (s', outs) -> In o outs -> is_delivery o = true ->
   exists og q, outgoing s = Some og /\ matching og (w_token w) r = Some q /\
     (o = SetResult q (w_rid w) (w_token w) r \/ o = Notify q (w_rid w) (w_token w) r) /\
@@ -29,7 +33,13 @@ Print Assumptions C02_deliver_only_matching.
 
 (* ---- unknown / retired token or other endpoint: nothing changes, nothing is delivered; a CON is answered with
    exactly one RST (none when it was received on a multicast address), a NON with nothing *)
-Theorem C02_unmatched_con_rst : forall s r mcl w og, outgoing s = Some og ->
+Theorem C02_unmatched_con_rst_general : forall s r mcl w og, outgoing s = Some og ->
+  is_response (w_code w) = true -> w_mtype w = CON -> matching og (w_token w) r = None ->
+  dispatch_message s r mcl w = if mcl then (s, []) else _send_via_transport s r (empty_msg RST (w_mid w)).
+Proof. exact unmatched_con_rst_general. Qed.
+Print Assumptions C02_unmatched_con_rst_general.
+(* ... which, unless the transport refuses datagrams for r at that moment, is exactly one RST on the wire *)
+Theorem C02_unmatched_con_rst : forall s r mcl w og, outgoing s = Some og -> refuses s r = false ->
   is_response (w_code w) = true -> w_mtype w = CON -> matching og (w_token w) r = None ->
   dispatch_message s r mcl w = (s, if mcl then [] else [Send r RST EMPTY (w_mid w) [] None]).
 Proof. exact unmatched_con_rst_lemma. Qed.
@@ -39,12 +49,12 @@ Theorem C02_unmatched_non_silent : forall s r mcl w og, outgoing s = Some og ->
   dispatch_message s r mcl w = (s, []).
 Proof. exact unmatched_non_silent_lemma. Qed.
 Print Assumptions C02_unmatched_non_silent.
-Theorem C02_unmatched_ack_only_ends_exchange : forall s r mcl w og, outgoing s = Some og ->
+Theorem C02_unmatched_ack_only_ends_exchange : forall s r mcl w og, outgoing s = Some og -> refuses s r = false ->
   is_response (w_code w) = true -> w_mtype w = ACK -> matching og (w_token w) r = None ->
-  dispatch_message s r mcl w = (fst (_remove_exchange s r w), snd (_remove_exchange s r w) ++ []).
+  dispatch_message s r mcl w = fst (_remove_exchange s r w).
 Proof. exact unmatched_ack_lemma. Qed.
 Print Assumptions C02_unmatched_ack_only_ends_exchange.
-Theorem C02_matched_con_acked : forall s r mcl w og q, outgoing s = Some og ->
+Theorem C02_matched_con_acked : forall s r mcl w og q, outgoing s = Some og -> refuses s r = false ->
   is_response (w_code w) = true -> w_mtype w = CON -> matching og (w_token w) r = Some q ->
   exists s' o, dispatch_message s r mcl w = (s', o ++ [Send r ACK EMPTY (w_mid w) [] None]) /\
                Forall (fun x => is_send x = false) o.
@@ -120,6 +130,28 @@ Example C02_giveup_with_multicast_pending :
   let r := run (init 5 10 2000000) [Request 0 100 None false; Request 1 0 (Some 0) false; Fire; Fire; Fire; Fire; Fire] in
   nth 6 (snd r) [] = [SetException 1 ConRetransmitsExceeded] /\ outgoing (fst r) = Some [(([6], None), 0)] /\ now (fst r) = 62000000.
 Proof. vm_compute. repeat split; reflexivity. Qed.
+
+(* ---- a transport that refuses the datagram synchronously (udp6: sendmsg fails -> error_received -> dispatch_error, all
+   from INSIDE send_message): the request being sent is failed with NetworkError in the very step in which it is issued.
+   This is what registering the request BEFORE calling send_message guarantees (a request registered afterwards would
+   be missed by the fan-out and stay pending for ever). Side condition: the request is actually handed to the
+   transport (NON, or CON with no exchange/backlog to r in front of it), and r is not a multicast address. *)
+Theorem C02_refused_request_fails : forall s q r mt obs og,
+  Inv s -> get_req s q = None -> outgoing s = Some og -> exchanges s <> None ->
+  refuses s r = true -> is_multicast r = false ->
+  (eff_mtype mt = CON -> amem Z.eqb r (backlogs s) = false) ->
+  In (SetException q NetworkError) (snd (new_request s q r mt obs)).
+Proof. exact refused_request_fails_lemma. Qed.
+Print Assumptions C02_refused_request_fails.
+(* the refused transmission also fails the OTHER outstanding requests to that remote (pending NON, queued CONs), once each *)
+Example C02_refused_request_with_others_pending :
+  snd (run (init 5 10 2000000) [Request 0 0 (Some 1) false; Request 1 0 (Some 0) false; Request 2 0 (Some 0) false;
+                                Refuse 0 true; Request 3 0 (Some 1) false; Refuse 0 false;
+                                Recv 0 false {| w_mtype := 1; w_code := 69; w_mid := 7; w_token := [9]; w_observe := None; w_rid := 1 |}])
+  = [[Token 0 [6]; Send 0 1 1 10 [6] None]; [Token 1 [7]; Send 0 0 1 11 [7] None]; [Token 2 [8]]; [];
+     [Token 3 [9]; SetException 0 NetworkError; SetException 1 NetworkError; SetException 2 NetworkError; SetException 3 NetworkError];
+     []; []].
+Proof. vm_compute. reflexivity. Qed.
 
 (* ---- shutdown fails, in the Shutdown step itself, every registered request whose future is still pending, and
    closes both tables; a request issued afterwards fails at once *)
